@@ -253,7 +253,16 @@ func streamNI(rep *Report, tier string, seed uint64) {
 				} else if p0 == "" {
 					r0, r1 := realRedact(o0), realRedact(o1)
 					if !bytes.Equal(r0, r1) {
-						orc = append(orc, fmt.Sprintf("C02:redacted outputs differ: %q vs %q", r0, r1))
+						site := ""
+						// D12: left padding in front of a value that starts with a line feed forms an
+						// envelope of its own, present only when the value is shorter than the width
+						lfPad := func(b []byte) []byte {
+							return bytes.ReplaceAll(b, append(append([]byte(nil), redacted...), '\n'), []byte("\n"))
+						}
+						if bytes.Equal(lfPad(r0), lfPad(r1)) && strings.ContainsAny(c.f, "0123456789") {
+							site = "D12:pad-before-leading-lf@@"
+						}
+						orc = append(orc, fmt.Sprintf("%sC02:redacted outputs differ: %q vs %q", site, r0, r1))
 					}
 					for _, v := range c.vals {
 						for _, s := range sentinelForms(v, 0) {
@@ -469,13 +478,14 @@ func streamEnvelopes(rep *Report, tier string, seed uint64) {
 				out, pm := rSprintf(f, []interface{}{arg})
 				ref, _ := fSprintf(d, []interface{}{inner})
 				var orc []string
-				declaredSafe := safeWrap || v.K == KSafeStr || v.K == KSafeInt || isRegistered(cfg, inner)
+				declaredSafe := safeWrap || v.K == KSafeStr || v.K == KSafeInt || isRegistered(cfg, inner) ||
+					(v.K == KPtrRegStruct && isRegistered(cfg, RegStruct{}))
 				valid := !bytes.Contains(ref, []byte("%!"))
 				if strings.Contains(d, "#") && strings.HasSuffix(d, "v") && !v.hasKind(KBool, KInt, KInt8, KUint16, KUint64, KUintptr, KFloat, KString, KNamedStr, KNamedInt, KRegInt, KSafeStr, KSafeInt, KDuration) {
 					// Go-syntax rendering puts the type name (safe text by design) around the address
 					valid = false
 				}
-				if v.hasKind(KNilMapStringer, KNilSliceError, KNilFuncStringer, KMapIfaceKey, KMapStructKey, KPtrStruct, KStrSlice, KIntArr, KMapKeyed, KRegStruct, KByteArr, KBytes, KComplex, KNilStringer, KGoStringer) && !declaredSafe {
+				if v.hasKind(KNilMapStringer, KNilSliceError, KNilFuncStringer, KMapIfaceKey, KMapStructKey, KPtrStruct, KPtrRegStruct, KStrSlice, KIntArr, KMapKeyed, KRegStruct, KByteArr, KBytes, KComplex, KNilStringer, KGoStringer) && !declaredSafe {
 					// composite renderings: structural punctuation is written as safe text by design
 					valid = false
 				}
@@ -1069,12 +1079,21 @@ func mkPanicker(where string, pl interface{}) interface{} {
 
 type recWriter struct {
 	calls [][]byte
-	mode  int // 0 ok, 1 error, 2 short
+	mode  int // 0 ok, 1 error, 2 short, 3 ok but the destination itself prints before it reads its argument
 }
 
 var errWriter = errors.New("writer failed")
 
 func (w *recWriter) Write(p []byte) (int, error) {
+	if w.mode == 3 {
+		// a sink that formats something of its own (a prefix, a timestamp) before consuming p:
+		// the bytes handed to Write must not live in storage a later print call can reuse
+		for i := 0; i < 3; i++ {
+			_ = redact.Sprintf("%s|%d", strings.Repeat("y", len(p)+8), 12345)
+			var sink bytes.Buffer
+			_, _ = redact.Fprintf(&sink, "%s", strings.Repeat("z", len(p)+8))
+		}
+	}
 	w.calls = append(w.calls, cp(p))
 	switch w.mode {
 	case 1:
@@ -1109,7 +1128,7 @@ func streamRoutes(rep *Report, tier string, seed uint64) {
 			defer resetRegistry()
 			for i := 0; i < n; i++ {
 				regCfg(r.Intn(16)).apply()
-				c := genCase(r, GenOpts{MaxDepth: 3, NoPanics: r.Chance(80)}, false)
+				c := genCase(r, GenOpts{MaxDepth: 3, NoPanics: r.Chance(80)}, r.Chance(30))
 				args := buildArgs(c.vals, 0)
 				var orc []string
 				var s []byte
@@ -1123,7 +1142,7 @@ func streamRoutes(rep *Report, tier string, seed uint64) {
 					emit(Case{Real: c.desc() + " => PANIC", Nontriv: false, Kind: "panic"})
 					continue
 				}
-				for mode := 0; mode < 3; mode++ {
+				for mode := 0; mode < 4; mode++ {
 					w := &recWriter{mode: mode}
 					var nn int
 					var err error
